@@ -195,7 +195,7 @@ _PKG_RE = re.compile(r"^package\s+\S+", re.M)
 
 
 def go_overlay_test(pkgdir, sources, run, env=None, tags="verif", race=False, timeout=900,
-                    extra_files=None, pkgname=None, args=(), capture=True, count=True):
+                    extra_files=None, pkgname=None, args=(), capture=True, count=True, abs_extra=None):
     """Compile+run in-package driver tests without writing into the repo:
     sources: list of files under /verif/overlay (their `package` clause is rewritten
     to the package's own name); they are mapped into REPO/<pkgdir>/zz_verif_*.go via
@@ -217,6 +217,8 @@ def go_overlay_test(pkgdir, sources, run, env=None, tags="verif", race=False, ti
         repl[os.path.join(pdir, "zz_verif_" + base)] = dst
     for name, path in (extra_files or {}).items():
         repl[os.path.join(pdir, name)] = path
+    for target, path in (abs_extra or {}).items():      # files added to OTHER packages of the build (accessors)
+        repl[target] = path
     ov = os.path.join(wd, "overlay.json")
     with open(ov, "w") as fh:
         json.dump({"Replace": repl}, fh)
